@@ -796,6 +796,49 @@ func c13IsURLBuilder(g *ssa.Function) bool {
 	return types.Identical(ps.At(0).Type(), types.Typ[types.Bool]) && c13IsNamed(ps.At(1).Type(), "registry", "Reference")
 }
 
+// c13ProgForURL: the program under analysis (set by c13R4) for caller look-ups.
+var c13ProgForURL *Prog
+
+// c13ParamIsURLBuilder: prm is a func-typed parameter and every call of its
+// function in the package passes a URL builder (a function value, or again
+// such a parameter) for it.
+func c13ParamIsURLBuilder(prm *ssa.Parameter) bool {
+	fn := prm.Parent()
+	if c13ProgForURL == nil || fn == nil {
+		return false
+	}
+	if _, isSig := types.Unalias(prm.Type()).Underlying().(*types.Signature); !isSig {
+		return false
+	}
+	idx := -1
+	for i, q := range fn.Params {
+		if q == prm {
+			idx = i
+		}
+	}
+	callers := 0
+	for _, g := range c13ProgForURL.FuncsOfPkg(c13PkgRemote) {
+		for _, call := range c13CallsToFn(g, fn) {
+			callers++
+			for _, r := range Roots(call.Common().Args[idx]) {
+				switch v := r.(type) {
+				case *ssa.Function:
+					if !c13IsURLBuilder(v) {
+						return false
+					}
+				case *ssa.Parameter:
+					if v == prm || !c13ParamIsURLBuilder(v) {
+						return false
+					}
+				default:
+					return false
+				}
+			}
+		}
+	}
+	return callers > 0
+}
+
 // c13URLSource classifies where a URL string comes from.
 // "" = not recognised.
 func c13URLSource(v ssa.Value) (kinds map[string]bool, params []*ssa.Parameter, unknown ssa.Value) {
@@ -821,8 +864,11 @@ func c13URLSource(v ssa.Value) (kinds map[string]bool, params []*ssa.Parameter, 
 				all := true
 				n := 0
 				for _, fr := range Roots(u.Call.Value) {
-					g, ok := fr.(*ssa.Function)
 					n++
+					if prm, isParam := fr.(*ssa.Parameter); isParam && c13ParamIsURLBuilder(prm) {
+						continue // a func-typed parameter for which every caller passes a URL builder
+					}
+					g, ok := fr.(*ssa.Function)
 					if !ok || !c13IsURLBuilder(g) {
 						all = false
 					}
@@ -923,6 +969,7 @@ func c13R4(c *Ctx) {
 	c.Expect(RU, 16)
 	c.Expect(RQ, 2) // the upload PUT and at least one page query (several page functions may share one helper)
 	c.Expect(RD, 1)
+	c13ProgForURL = c.P
 	methods := map[string]bool{"GET": true, "HEAD": true, "PUT": true, "POST": true, "DELETE": true}
 	for _, f := range c.P.FuncsOfPkg(c13PkgRemote) {
 		fn := FnName(f)
@@ -1170,16 +1217,40 @@ func c13Seek(c *Ctx) {
 		return
 	}
 	tn := T.Obj().Name()
-	hasField := false
-	if st, ok := T.Underlying().(*types.Struct); ok {
-		for i := 0; i < st.NumFields(); i++ {
-			if st.Field(i).Name() == "offset" {
-				hasField = true
+	// the position field, by role: the int64 field of the receiver that Read updates
+	// (fallback: the int64 field Seek assigns the value it returns)
+	posField := ""
+	fieldStores := func(fn *ssa.Function) map[string]int {
+		out := map[string]int{}
+		recvAl := Aliases(fn.Params[0])
+		AllInstrs(fn, func(in ssa.Instruction) {
+			st, ok := in.(*ssa.Store)
+			if !ok {
+				return
+			}
+			fa, ok := st.Addr.(*ssa.FieldAddr)
+			if !ok || !recvAl[fa.X] {
+				return
+			}
+			if b, isB := types.Unalias(st.Val.Type()).Underlying().(*types.Basic); isB && b.Kind() == types.Int64 {
+				out[c13FieldNameOf(fa.X.Type(), fa.Field)]++
+			}
+		})
+		return out
+	}
+	if fs := fieldStores(read); len(fs) == 1 {
+		for name := range fs {
+			posField = name
+		}
+	} else {
+		for name := range fieldStores(seek) {
+			if posField == "" || name < posField {
+				posField = name
 			}
 		}
 	}
-	if !hasField {
-		c.LostAnchor(RS, tn+".offset (position field)")
+	if posField == "" {
+		c.LostAnchor(RS, tn+": the position field (an int64 field of the receiver that Read / Seek update)")
 		return
 	}
 	pkg := "internal/httputil"
@@ -1225,8 +1296,8 @@ func c13Seek(c *Ctx) {
 	// offset recorded on every success path that changes position
 	recv := seek.Params[0]
 	recvAl := Aliases(recv)
-	offLoads := c13FieldLoads(seek, pkg, tn, "offset", func(b ssa.Value) bool { return recvAl[b] })
-	stores := c13FieldStores(seek, pkg, tn, "offset", func(b ssa.Value) bool { return recvAl[b] })
+	offLoads := c13FieldLoads(seek, pkg, tn, posField, func(b ssa.Value) bool { return recvAl[b] })
+	stores := c13FieldStores(seek, pkg, tn, posField, func(b ssa.Value) bool { return recvAl[b] })
 	// edges where the requested offset equals the current one
 	var same []Edge
 	for _, iff := range Ifs(seek) {
@@ -1269,7 +1340,7 @@ func c13Seek(c *Ctx) {
 	c.Check(RS, FnName(seek)+"|offset-is-result", seek.Pos(), okVal, "the offset stored equals the offset returned")
 	// Read: offset += n
 	recvR := Aliases(read.Params[0])
-	rstores := c13FieldStores(read, pkg, tn, "offset", func(b ssa.Value) bool { return recvR[b] })
+	rstores := c13FieldStores(read, pkg, tn, posField, func(b ssa.Value) bool { return recvR[b] })
 	var inner []ssa.CallInstruction
 	for _, call := range Calls(read, func(n string) bool { return n == "(io.Reader).Read" || strings.HasSuffix(n, ").Read") }) {
 		inner = append(inner, call)
@@ -1278,7 +1349,7 @@ func c13Seek(c *Ctx) {
 	if okRead {
 		n := ResultOf(inner[0], 0)
 		nAl := c13AliasSet(n)
-		offR := c13FieldLoads(read, pkg, tn, "offset", func(b ssa.Value) bool { return recvR[b] })
+		offR := c13FieldLoads(read, pkg, tn, posField, func(b ssa.Value) bool { return recvR[b] })
 		good := newCut()
 		for _, s := range rstores {
 			add, ok := s.Val.(*ssa.BinOp)
